@@ -423,7 +423,53 @@ def decode_case(ctx, case):
     ctx.nt(spec, data)
 
 
-COMPONENTS = {'value': value_case, 'decode': decode_case}
+def interleaved_case(ctx, case):
+    """Two codec calls that overlap in time (two threads on two sockets):
+    call A is suspended at its k-th line, call B runs to completion, A
+    resumes.  Each must give what it gives alone.  case {a: [op, spec,
+    value], b: [op, spec, value], k}; op 'send' | 'read'."""
+    from vlib.budget import run_interleaved
+
+    def make(t):
+        op, spec, v = t
+        if isinstance(spec, list):
+            spec = _tup(spec)
+        T = build(spec)
+        if op == 'send':
+            sink = Sink()
+            alone = Sink()
+            _send(T, 'plain', v, alone)
+            return (lambda: _send(T, 'plain', v, sink)), \
+                (lambda r: sink.value), alone.value
+        data = ref_enc(spec, v)
+        alone = _read(T, 'plain', CountingStream(data))
+        st_ = CountingStream(data)
+        return (lambda: _read(T, 'plain', st_)), (lambda r: r), alone
+    ctx.ev()
+    try:
+        fa, ga, wa = make(case['a'])
+        fb, gb, wb = make(case['b'])
+    except Exception:
+        return          # the value is not encodable alone: value_case's job
+    try:
+        ra, rb, ran = run_interleaved(fa, fb, case['k'])
+    except Exception as e:
+        ctx.fail('interleaved', 'E-overlapping-calls-raise', case, exc=e)
+        return
+    if not ran:
+        ctx.label('interleave_point_beyond_call')
+        return
+    xa, xb = ga(ra), gb(rb)
+    if repr(xa) != repr(wa) or repr(xb) != repr(wb):
+        ctx.fail('interleaved', 'E-overlapping-calls', case,
+                 (repr(xa)[:100], repr(xb)[:100]),
+                 (repr(wa)[:100], repr(wb)[:100]))
+        return
+    ctx.label('interleaved')
+
+
+COMPONENTS = {'value': value_case, 'decode': decode_case,
+              'interleaved': interleaved_case}
 
 
 # ---------------------------------------------------------------- strategies
@@ -749,9 +795,47 @@ def t_random(ctx, n, specs=None):
     hyp(ctx, 'random', case_strategy(specs), body, n)
 
 
+def t_interleaved(ctx, part, nparts):
+    samples = {
+        'Boolean': True, 'Byte': -3, 'UnsignedByte': 200, 'Short': -300,
+        'UnsignedShort': 50000, 'Integer': -70000, 'Long': -2 ** 40,
+        'UnsignedLong': 2 ** 63, 'Float': 1.5, 'Double': -2.25,
+        'VarInt': 300, 'VarLong': 2 ** 40, 'String': 'h\u00e9llo',
+        'UUID': '12345678-1234-5678-1234-567812345678',
+        'VarIntPrefixedByteArray': b'abc', 'TrailingByteArray': b'xyz',
+        'ShortPrefixedByteArray': b'pq', 'Angle': 90.0,
+        'FixedPointInteger': 2.5, 'Position': (1, 2, 3)}
+    calls = []
+    for name in LEAVES:
+        nm = name if isinstance(name, str) else spec_name(name)
+        if nm in samples:
+            calls.append(('send', name, samples[nm]))
+            calls.append(('read', name, samples[nm]))
+    calls.append(('send', ('PrefixedArray', 'VarInt', 'String'), ['a', 'bc']))
+    calls.append(('read', ('PrefixedArray', 'VarInt', 'String'), ['a', 'bc']))
+    n = 0
+    for i, a in enumerate(calls):
+        if i % nparts != part:
+            continue
+        for j, b in enumerate(calls):
+            if (i + j) % 3:
+                continue
+            for k in range(1, 60):
+                before = ctx.labels.get('interleave_point_beyond_call', 0)
+                interleaved_case(ctx, {'a': list(a), 'b': list(b), 'k': k})
+                n += 1
+                if ctx.labels.get('interleave_point_beyond_call', 0) > before:
+                    break
+    ctx.sample({'a': ['send', 'VarInt', 300], 'b': ['send', 'String', 'x'],
+                'k': 3}, 'interleaved')
+
+
 def tasks(tier):
     q = tier == 'quick'
     tl = [('small', t_exhaustive_small, {}), ('boundaries', t_boundaries, {})]
+    for i in range(4):
+        tl.append(('interleaved_%d' % i, t_interleaved,
+                   dict(part=i, nparts=4)))
     for name in ('Short', 'UnsignedShort'):
         lo, hi = INT_RANGES[name][:2]
         nsh = 5
